@@ -452,7 +452,12 @@ def gen_meta(rng, cfg, w: World, opid, invalid, steer):
         op["value"] = rng.choice([1, 2, "x", None])
     elif r < 0.75:
         op["fn"] = "update"
-        op["values"] = {k: rng.choice([1, 2, "y"]) for k in rng.sample(keys, rng.randint(1, 2))}
+        if rng.random() < 0.4:
+            op["shared"] = rng.choice(["d1", "d2"])
+            op["values"] = {"d1": {"a": 1, "b": "y"}, "d2": {"c": 2}}[op["shared"]]
+        else:
+            op["values"] = {k: rng.choice([1, 2, "y"])
+                            for k in rng.sample(keys, rng.randint(1, 2))}
         op["replace"] = rng.random() < 0.4
     else:
         op["fn"] = "clear"
